@@ -27,6 +27,11 @@ def main():
 
     shard = json.load(open(shardfile))
     rep = Reporter(prop, shard)
+    covdir = os.environ.get("VERIF_COV")
+    if covdir:
+        from harness import linecov
+
+        linecov.start(boot.REPO)
     t0 = time.time()
     status = "ok"
     try:
@@ -42,6 +47,8 @@ def main():
 
         rep.inconc("harness exception in shard %r: %s" % (shard.get("name"), "".join(traceback.format_exception(type(e), e, e.__traceback__))[-3000:]))
         status = "harness-exception"
+    if covdir:
+        linecov.dump(os.path.join(covdir, "%s-%s.json" % (prop, shard.get("name", "shard"))))
     out = rep.dump()
     out["status"] = status
     out["wall"] = time.time() - t0
